@@ -388,6 +388,7 @@ def run(tier, seed):
     dictionary_history_family(run)
     spec = run_batch([{"op": "spec.canon", "schema": to_wire(s)} for k, s in cases])
     model = run_batch([{"op": "parse", "schema": to_wire(s)} for k, s in cases])
+    model = [{k_: v_ for k_, v_ in m_.items() if k_ != "toraw"} for m_ in model]     # (the JSON value of the canonical text: C13's business)
     for k, (kind, s) in enumerate(cases):
         ip = impl_parse(s)
         case = {"kind": kind, "schema": s, "tags": [kind]}
